@@ -27,7 +27,7 @@ ASSUMPTIONS = [
     "per-rule comparison across sub-selections only between rulesets that contain the same superiors of that rule",
 ]
 BOUNDS = {
-    "quick": "L=24 ring, <=3 genes, all 24 rotations, families mixed/superiors/extenders/cond/chain-2-1, reduced hit menu; rule order on L=24 line+ring",
+    "quick": "L=24 ring, <=3 genes, all 24 rotations, families mixed/superiors/extenders/cds/chain-2-1/chain-3-4, reduced hit menu; rule order on L=24 line+ring",
     "thorough": "L=24 and L=25, full hit menu, additional chain families",
 }
 REQUIRED_BUCKETS = {t: ["rotation:compared", "rotation:origin-cuts-gene", "rotation:origin-cuts-core", "rotation:origin-in-neighbourhood",
@@ -99,9 +99,9 @@ def per_rule(world, hits, rules_spec):
 
 
 def families(tier):
-    wanted = ["mixed", "superiors", "extenders", "cond-a-and-b", "cond-cds-a-and-b", "cond-min2", "chain-2-1", "chain-3-4"]
+    wanted = ["mixed", "superiors", "extenders", "cond-cds-a-and-b", "chain-2-1", "chain-3-4"]
     if tier == "thorough":
-        wanted += ["chain-2-0", "chain-5-1", "cond-a-not-b"]
+        wanted += ["cond-a-and-b", "cond-min2", "chain-2-0", "chain-5-1", "cond-a-not-b"]
     fams = {f[0]: f for f in c03.families("thorough")}
     # c03's distances are tuned for L=13; same values work on L=24 with regions < L/2
     return [fams[w] for w in wanted]
